@@ -486,6 +486,11 @@ def ob_connection_identity(report, prop):
                    ['Connection::new', 'Connection::try_peer_id'], {}, body)
 
 
+def M_split_top(t):
+    from mirsym import mir as _M
+    return _M.split_top(t)
+
+
 def ob_server_config_sni(report, prop):
     def body(ob):
         def m_next(ex, p, call, k):
@@ -495,7 +500,24 @@ def ob_server_config_sni(report, prop):
             q = p.clone()
             pair = Agg('()', None, (Sym(f'name{n}', 'String'), Sym(f'cert{n}', 'CertificateDer')), 'tuple')
             p.events.append(Event('pair', 'next', (pair,)))
-            k(p, MD.some(pair))
+            # the list may be owned `Vec<(String, CertificateDer)>` or borrowed `&[(&str, &CertificateDer)]`: same pairs, by value or behind references
+            inner = re.sub(r'^(std::option::|core::option::)?Option<(.*)>$', r'\2', (call.retty or '').strip())
+            by_ref = inner.startswith('&')
+            elems = M_split_top(re.sub(r"^&('\w+ )?", '', inner).strip()[1:-1]) if inner.rstrip().endswith(')') else ['', '']
+            vals = []
+            for v_, t_ in zip(pair.fields, (elems + ['', ''])[:2]):
+                if t_.strip().startswith('&'):
+                    c_ = ('H', f'{v_.name}.cell', '')
+                    p.mem[c_] = v_
+                    vals.append(Ptr(c_))
+                else:
+                    vals.append(v_)
+            item = Agg('()', None, tuple(vals), 'tuple')
+            if by_ref:
+                c_ = ('H', f'pair{n}.cell', '')
+                p.mem[c_] = item
+                item = Ptr(c_)
+            k(p, MD.some(item))
             k(q, MD.NONE)
 
         def m_certified(ex, p, call, k):
@@ -505,7 +527,7 @@ def ob_server_config_sni(report, prop):
         def m_add(ex, p, call, k):
             p.events.append(Event('sni-add', 'ResolvesServerCertUsingSni::add', (ex.deref(p, call.args[1]), call.args[2])))
             k(p, Sym(f'add_result{p.seq("add")}', 'Result<(), rustls::Error>'))
-        ex = e2.executor('anemo', [(r'IntoIter as Iterator>::next$', m_next), (r'CertifiedKey::new$', m_certified), (r'ResolvesServerCertUsingSni::add$', m_add)], max_depth=1, unroll=4)
+        ex = e2.executor('anemo', [(r'(vec::IntoIter|slice::Iter|^<IntoIter|^<Iter) as Iterator>::next$|IntoIter as Iterator>::next$|Iter as Iterator>::next$', m_next), (r'CertifiedKey::new$', m_certified), (r'ResolvesServerCertUsingSni::add$', m_add)], max_depth=1, unroll=4)
         fns = [f for f in find_fns(ex.prog, r'^config::<impl>::server_config$') if len(f.args) >= 3]
         if not fns:
             # moved out of the builder: the only crate function of that name returning a quinn server configuration
